@@ -103,6 +103,10 @@ def cases(tier, seed):
         P = pat.EXH(2) if dd == 2 else pat.RND(3, 40, rng, max_len=5)
         for _ in range(40 if tier == 'quick' else 200):
             add(cfg, rng.choice(P), rng.choice(P))
+    # configuration fuzz over all construction axes
+    for i in range(120 if tier == 'quick' else 1200):
+        cfg, dd = pat.random_cfg(rng)
+        add(cfg, pat.random_pattern(rng, dd), pat.random_pattern(rng, dd), defn=(i % 10 == 0))
     # random custom bases
     for i in range(10 if tier == 'quick' else 80):
         d = rng.choice((2, 3, 3, 4))
